@@ -278,6 +278,19 @@ class HybridClass(metaclass=MetaHybridClass):
     def _reinit_from_xobject(self, _xobject):
         self._xobject = _xobject
         for ff in self._XoStruct._fields:
+            if isinstance(ff.ftype, Ref):
+                # a dressed referent (carried over from another object, or
+                # from before the data were rewritten) is kept only while the
+                # reference denotes that very object
+                kept = self.__dict__.get("_dressed_" + ff.name)
+                if kept is not None:
+                    target = getattr(_xobject, ff.name)
+                    if (
+                        target is None
+                        or target._buffer is not kept._xobject._buffer
+                        or target._offset != kept._xobject._offset
+                    ):
+                        del self.__dict__["_dressed_" + ff.name]
             if hasattr(ff.ftype, "_DressingClass"):
                 if hasattr(self, "_dressed_" + ff.name):
                     old_vv = getattr(self, "_dressed_" + ff.name)
